@@ -148,11 +148,12 @@ func (s *scte35) parseTable(data []byte) error {
 		if buf.Len() < int(descriptorLoopLength+psi.CrcLen) {
 			return gots.ErrInvalidSCTE35Length
 		}
-		for bytesRead := uint16(0); bytesRead < descriptorLoopLength; {
+		// int arithmetic: with uint16 counters a loop length near 65535 wraps around and never ends
+		for bytesRead := 0; bytesRead < int(descriptorLoopLength); {
 			descTag := readByte()
 			descLen := readByte()
 			// Make sure a bad descriptorLen doesn't kill us
-			if descriptorLoopLength-bytesRead-2 < uint16(descLen) {
+			if int(descriptorLoopLength)-bytesRead-2 < int(descLen) {
 				return gots.ErrInvalidSCTE35Length
 			}
 			if descTag != segDescTag {
@@ -169,7 +170,7 @@ func (s *scte35) parseTable(data []byte) error {
 				}
 				s.descriptors = append(s.descriptors, d)
 			}
-			bytesRead += 2 + uint16(descLen)
+			bytesRead += 2 + int(descLen)
 		}
 	} else {
 		return gots.ErrUnknownTableID
